@@ -1446,7 +1446,9 @@ func (it *Interp) opShrink(op *Op) {
 		}
 		switch op.Mode {
 		case 0:
-			b.W.Shrink()
+			if b.W.Shrink() {
+				fail("shrink|unbounded|more-work", "%s step %d: an unbounded Shrink reports remaining work", b.Name, it.Step)
+			}
 		case 1:
 			n := 0
 			for b.W.Shrink(0) {
@@ -1466,6 +1468,11 @@ func (it *Interp) opShrink(op *Op) {
 		default:
 			b.W.Shrink(0) // a single bounded step
 			return
+		}
+		// the call (or the loop of time-limited calls) has just reported "no remaining work": the bounds must hold now,
+		// before anything else is called
+		if it.Opt.ShrinkCaps {
+			it.checkShrinkCaps(b)
 		}
 		if b.W.Shrink() {
 			fail("shrink|converged|more-work", "%s step %d: Shrink reports remaining work right after a complete Shrink", b.Name, it.Step)
